@@ -6,11 +6,12 @@ use crate::model::{self, EstEffect, MState};
 use crate::ops::{Code, Event, Op, PutRes, Val};
 use crate::subj::{self, EstStep, Header, Subject};
 use crate::trace::Trace;
-use crate::world::{self, InjectedPanic, WatchdogPanic};
+use crate::world::{self, InjectedPanic, SoftCbPanic, WatchdogPanic};
 use std::collections::{BTreeMap, BTreeSet};
 use std::panic::{catch_unwind, AssertUnwindSafe};
 
 pub const EVENT_BUDGET: u64 = 20_000;
+const SOFT: &str = "eviction callback failed (simulated)";
 
 #[derive(Clone, Debug)]
 pub struct Violation {
@@ -56,6 +57,8 @@ pub struct StepLog {
     /// abstract state of the primary after the event (None once destroyed)
     pub post: Option<MState>,
     pub observer: bool,
+    /// eviction-callback invocations (in order) of this event
+    pub cb: Vec<(u32, u64)>,
 }
 
 pub struct ExecResult {
@@ -124,6 +127,10 @@ fn panic_desc(p: Box<dyn std::any::Any + Send>) -> (String, bool, bool) {
         alloc::harness_scope(move || drop(p));
         return ("watchdog".into(), false, true);
     }
+    if p.is::<SoftCbPanic>() {
+        alloc::harness_scope(move || drop(p));
+        return (SOFT.into(), false, false);
+    }
     let loc = world::take_last_panic().unwrap_or_else(|| "unknown".into());
     alloc::harness_scope(move || drop(p));
     (loc, false, false)
@@ -139,10 +146,17 @@ struct Run<'a> {
     fault_code: Option<Code>,
     log: Vec<StepLog>,
     log_hash: u64,
+    /// the simulated callback has failed once: from here on only the callback history (C15) is
+    /// judged, every other oracle would be looking at an aborted operation
+    soft: bool,
 }
 
 impl<'a> Run<'a> {
     fn viol(&mut self, prop: &str, oracle: &str, step: i64, op: &Op, detail: String) {
+        if self.soft && prop != "C15" {
+            self.stats.bump("after_callback_failure_other_oracles_skipped");
+            return;
+        }
         if self.v.len() < 32 {
             self.v.push(Violation {
                 prop: prop.to_string(),
@@ -207,7 +221,9 @@ pub fn execute(t: &Trace, opts: Opts) -> ExecResult {
         fault_code: None,
         log: Vec::new(),
         log_hash: 0xC0FFEE,
+        soft: false,
     };
+    world::set_cb_panic(t.cb_panic_at);
     let f1 = t.faults.first().copied().unwrap_or(0);
     let f2 = t.faults.get(1).copied().unwrap_or(0);
     alloc::begin_run(t.alloc);
@@ -402,6 +418,7 @@ pub fn execute(t: &Trace, opts: Opts) -> ExecResult {
                 val: vals[0].clone(),
                 post,
                 observer: ev.observer,
+                cb: slots[targets[0]].as_ref().map(|s| s.last_cb.clone()).unwrap_or_default(),
             });
         }
     }
@@ -726,6 +743,10 @@ fn do_event(run: &mut Run, slots: &mut [Option<Slot>], ti: usize, step: i64, ev:
                 } else {
                     run.stats.bump("post_fault_hang");
                 }
+            } else if d == SOFT {
+                run.soft = true;
+                run.stats.bump("fault_fired:callback_failure");
+                run.stats.bump(&format!("callback_failure_during:{}", op.code.name()));
             } else if !run.faulted {
                 run.stats.bump(&format!("op_panic:{}", op.code.name()));
                 run.viol("C05", "op_panic", step, op, format!("the operation panicked at {}", d));
@@ -807,6 +828,12 @@ fn do_event(run: &mut Run, slots: &mut [Option<Slot>], ti: usize, step: i64, ev:
         }
     }
     let _ = calls_before;
+    if run.soft && val.is_panic() && cb_id.is_some() {
+        // the callback history of the aborted operation is still judged
+        if let (Some(pre), Some(post)) = (pre.as_ref(), post.as_ref()) {
+            check_c15(run, &cb_log, pre, post, &val, step, op);
+        }
+    }
     if val.is_panic() && !run.faulted {
         // the operation stopped half-way: the caller-side histories are no longer trustworthy
         let sl = slots[ti].as_mut().unwrap();
@@ -893,7 +920,42 @@ fn check_ctor_state(run: &mut Run, h: &Header, a: &Alpha) {
             );
         }
     }
+    // the object must have been built with the configured sizes (C01: "configured bound")
     let conversion = h.kind == Kind::Lru && h.random_state && !h.with_cb && h.ctor >= 1;
+    let want: Option<Vec<i64>> = match h.kind {
+        Kind::Lru if !conversion => Some(vec![h.sizes[0] as i64]),
+        Kind::Slru => Some(vec![h.sizes[0] as i64, h.sizes[1] as i64]),
+        Kind::Arc => Some(vec![h.sizes[0] as i64, 0]),
+        Kind::Wtlfu => Some(vec![h.sizes[0] as i64, h.sizes[1] as i64, h.sizes[2] as i64]),
+        _ => None,
+    };
+    if let Some(w) = want {
+        if a.scalars != w {
+            run.viol(
+                "C01",
+                "configured_bounds",
+                -1,
+                &nop,
+                format!("constructed with sizes {:?} but the object reports {:?}: {}", w, a.scalars, a.show()),
+            );
+        }
+    }
+    if h.kind == Kind::TwoQ && a.scalars.first() != Some(&(h.sizes[0] as i64)) {
+        run.viol("C01", "configured_bounds", -1, &nop, format!("constructed with size {} but the object reports {:?}", h.sizes[0], a.scalars));
+    }
+    if let Some(e) = &a.est {
+        // sample size: via the builder paths it is the configured one; w starts at 0
+        let samples_known = !(h.kind == Kind::Wtlfu && h.random_state && h.ctor != 0) || true;
+        if samples_known && (e.samples != h.samples || e.w != 0) {
+            run.viol(
+                "C11",
+                "configured_samples",
+                -1,
+                &nop,
+                format!("constructed with sample size {} but the estimator reports samples={} w={}", h.samples, e.samples, e.w),
+            );
+        }
+    }
     if conversion {
         // L8: every distinct key of the input is retained, capacity >= 1
         let n = h.sizes[0] as u32;
